@@ -72,7 +72,7 @@ def _well_typed(E, st, objs, depth):
     return _well_typed(E, st, nxt, depth - 1)
 
 
-def verify_function(qual, prop, program=None, reg=None, self_cls=None, tag=None, exclusions=None):
+def verify_function(qual, prop, program=None, reg=None, self_cls=None, tag=None, exclusions=None, only_case=None):
     """returns FuncReport; obligations named <prop>.<Class.func>[@SelfCls].<kind>..."""
     R = reg or REG
     rep = FuncReport(qual)
@@ -101,6 +101,8 @@ def verify_function(qual, prop, program=None, reg=None, self_cls=None, tag=None,
         reach_exit = []
         for st, env, label in entry_states(E, c, ci, self_cls):
             n_cases += 1
+            if only_case is not None and (n_cases - 1) != only_case:
+                continue
             fr = Frame(mi, ci, node, qual, c)
             # obligations are named after the display name (includes the receiver class)
             fr.qual = mi.name + ":" + fname
@@ -197,10 +199,11 @@ def _check_normal(E, c, fr, prop, fname, st, env, val, entry, label):
         ob = E.obl("%s.%s.post.kind" % (prop, fname), "post", "result kind %s" % (c.returns,))
         ob.add(st.pc, z3.BoolVal(False), note="returns %s, contract says %s" % (val.kind, c.returns))
         return
-    for w in want:
-        if w.tag == "real" and val.kind.tag in ("int", "bool"):
-            val = E.to_real(val)
-            break
+    if not any(E._compatible(val.kind, w) for w in want):
+        for w in want:
+            if w.tag == "real" and val.kind.tag in ("int", "bool"):
+                val = E.to_real(val)
+                break
     env2 = dict(env)
     env2["result"] = val
     for i, e in enumerate(c.ensures):
@@ -225,7 +228,11 @@ def _check_raise(E, c, fr, prop, fname, st, env, exc, entry, label):
         why = (exc.aux or {}).get("why", "")
         ob.add(st.pc, _excl(E, ob.name, z3.BoolVal(False), entry, env, fr), note="%s escapes%s" % (ename, (": " + why) if why else ""))
         return
-    g = E.spec_bool(c.raises[declared], entry, env, entry, fr)
+    ck = (declared, id(entry))
+    cache = E.__dict__.setdefault("_raise_cond_cache", {})
+    if ck not in cache:
+        cache[ck] = (E.spec_bool(c.raises[declared], entry, env, entry, fr), entry)
+    g = cache[ck][0]
     ob = E.obl("%s.%s.raises.%s" % (prop, fname, declared), "raises", c.raises[declared])
     ob.add(st.pc, _excl(E, ob.name, g, entry, env, fr), note=label)
     for i, e in enumerate(c.ensures_on_raise.get(declared, [])):
@@ -251,7 +258,8 @@ def _check_frame(E, c, mods, fr, prop, fname, st, env, entry, kindname):
                         fk = sh.fields[node.attr]
                         whole.add("T|%s|%s" % (node.attr, fk))
                         for k in alts(fk):
-                            whole.add(E._fkey(node.attr, k))
+                            for key, _srt in E.field_keys(node.attr, k):
+                                whole.add(key)
                 continue
             base = E.spec_value(node.value, entry, env, entry)
             fk = E.R.field_kind(base.kind[1], node.attr, E.P)
@@ -261,8 +269,8 @@ def _check_frame(E, c, mods, fr, prop, fname, st, env, entry, kindname):
             if len(ks) > 1:
                 allowed.setdefault("T|%s|%s" % (node.attr, fk), []).append(base.t)
             for k in ks:
-                if k.tag != "none":
-                    allowed.setdefault(E._fkey(node.attr, k), []).append(base.t)
+                for key, _srt in E.field_keys(node.attr, k):
+                    allowed.setdefault(key, []).append(base.t)
         elif isinstance(node, ast.Call) and node.func.id == "items":
             base = E.spec_value(node.args[0], entry, env, entry)
             if base.kind.tag == "list":
@@ -293,6 +301,16 @@ def _check_frame(E, c, mods, fr, prop, fname, st, env, entry, kindname):
     else:
         ob = E.obl("%s.%s.%s" % (prop, fname, kindname), "frame", "modifies " + ", ".join(mods) if mods else "modifies nothing")
         ob.add(st.pc, z3.BoolVal(True))
+
+
+def count_cases(qual, self_cls=None, reg=None):
+    R = reg or REG
+    c = R.contracts.get(qual + "@" + self_cls) if self_cls else None
+    c = c or R.contracts[qual]
+    n = 1
+    for _n, k in c.params:
+        n *= len(alts(k))
+    return n
 
 
 def verify_lemma(name, prop, reg=None):
